@@ -512,6 +512,9 @@ class Model:
                     self.coerced += 1
                     return ["none"], None
                 e2 = Err(list(e.msgs), e.children, e.fuzzy)
+                if t["of"]["k"] in ("none", "opt", "union"):
+                    # typing flattens/collapses these (Optional[None] is NoneType): messages unspecified
+                    return None, Err(fuzzy=True)
                 if self.o.coerce:
                     e2.fuzzy = True
                 else:
@@ -573,8 +576,7 @@ class Model:
                 kv, ke = self.des(t["key"], key)
                 vv, ve = self.des(t["val"], x)
                 if ke and ve:
-                    e = Err(list(ke.msgs), ke.children, True)  # how many entries: unspecified
-                    children[key] = e
+                    children[key] = Err(fuzzy=True)  # which of the two is reported: unspecified
                 elif ke or ve:
                     children[key] = ke or ve
                 else:
